@@ -11,8 +11,10 @@
 EXTENDS Naturals, Sequences, TLC
 
 CONSTANTS InitOut, InitErr,   \* bytes buffered in stdout / stderr when fileno() is called
+          InitEof,            \* TRUE: EOF was received BEFORE fileno() (buffers closed, set_forever never called)
           MaxOps,             \* operations per thread
-          FixLocks
+          FixLocks,
+          ClearWhenClosed     \* mutation: read()/empty() clear the event although the buffer is closed
 
 Bufs == {1, 2}                \* 1 = stdout (in_buffer, OrPipe p1), 2 = stderr (in_stderr_buffer, p2)
 Partner(b) == 3 - b
@@ -21,13 +23,13 @@ Free == "free"
 (* --algorithm OrPipe {
   variables
     buf = <<InitOut, InitErr>>,          \* bytes buffered
-    bclosed = <<FALSE, FALSE>>,          \* BufferedPipe._closed
+    bclosed = <<InitEof, InitEof>>,      \* BufferedPipe._closed
     block = <<Free, Free>>,              \* BufferedPipe._lock owner
-    oset = <<InitOut > 0, InitErr > 0>>, \* OrPipe._set      (set_event(): set iff data or closed)
-    pset = (InitOut > 0) \/ (InitErr > 0), \* PosixPipe._set
-    bytes = IF (InitOut > 0) \/ (InitErr > 0) THEN 1 ELSE 0,   \* bytes sitting in the OS pipe
+    oset = <<InitOut > 0 \/ InitEof, InitErr > 0 \/ InitEof>>, \* OrPipe._set   (set_event(): set iff data or closed)
+    pset = (InitOut > 0) \/ (InitErr > 0) \/ InitEof, \* PosixPipe._set
+    bytes = IF (InitOut > 0) \/ (InitErr > 0) \/ InitEof THEN 1 ELSE 0,   \* bytes sitting in the OS pipe
     forever = FALSE,
-    eof = FALSE,
+    eof = InitEof,
     orlock = Free, plock = Free,
     nops = [t \in {"T", "R1", "R2"} |-> 0],
     stuck = FALSE;                       \* a thread sits in os.read() on an empty pipe
@@ -84,7 +86,7 @@ Free == "free"
    r1: await block[rb] = Free; block[rb] := self;
    r2: if (buf[rb] = 0) { goto r5; };              \* nothing there (closed -> b"", else timeout)
    r3: buf[rb] := 0;
-   r4: if (~bclosed[rb]) { call or_clear(rb); };   \* if event is not None and not closed: event.clear()
+   r4: if (~bclosed[rb] \/ ClearWhenClosed) { call or_clear(rb); };   \* if event is not None and not closed: event.clear()
    r5: block[rb] := Free;
    r6: return;
   }
@@ -120,7 +122,7 @@ Free == "free"
        }
   }
 } *)
-\* BEGIN TRANSLATION (chksum(pcal) = "d2a7b977" /\ chksum(tla) = "e3ee784")
+\* BEGIN TRANSLATION (chksum(pcal) = "be155cf6" /\ chksum(tla) = "fab2dfcf")
 CONSTANT defaultInitValue
 VARIABLES pc, buf, bclosed, block, oset, pset, bytes, forever, eof, orlock, 
           plock, nops, stuck, stack
@@ -138,13 +140,13 @@ ProcSet == {"T"} \cup ({"R1", "R2"})
 
 Init == (* Global variables *)
         /\ buf = <<InitOut, InitErr>>
-        /\ bclosed = <<FALSE, FALSE>>
+        /\ bclosed = <<InitEof, InitEof>>
         /\ block = <<Free, Free>>
-        /\ oset = <<InitOut > 0, InitErr > 0>>
-        /\ pset = ((InitOut > 0) \/ (InitErr > 0))
-        /\ bytes = (IF (InitOut > 0) \/ (InitErr > 0) THEN 1 ELSE 0)
+        /\ oset = <<InitOut > 0 \/ InitEof, InitErr > 0 \/ InitEof>>
+        /\ pset = ((InitOut > 0) \/ (InitErr > 0) \/ InitEof)
+        /\ bytes = (IF (InitOut > 0) \/ (InitErr > 0) \/ InitEof THEN 1 ELSE 0)
         /\ forever = FALSE
-        /\ eof = FALSE
+        /\ eof = InitEof
         /\ orlock = Free
         /\ plock = Free
         /\ nops = [t \in {"T", "R1", "R2"} |-> 0]
@@ -441,7 +443,7 @@ r3(self) == /\ pc[self] = "r3"
                             cb >>
 
 r4(self) == /\ pc[self] = "r4"
-            /\ IF ~bclosed[rb[self]]
+            /\ IF ~bclosed[rb[self]] \/ ClearWhenClosed
                   THEN /\ /\ b' = [b EXCEPT ![self] = rb[self]]
                           /\ stack' = [stack EXCEPT ![self] = << [ procedure |->  "or_clear",
                                                                    pc        |->  "r5",
@@ -650,6 +652,7 @@ Spec == Init /\ [][Next]_vars
 Termination == <>(\A self \in ProcSet: pc[self] = "Done")
 
 \* END TRANSLATION 
+ 
  
 
 (* ---- C24 ---- *)
